@@ -30,7 +30,16 @@ func (p *Parser) parseAlterStatement() (*ast.AlterStatement, error) {
 
 // parseAlterTableStatement parses ALTER TABLE statements
 func (p *Parser) parseAlterTableStatement(stmt *ast.AlterStatement) (*ast.AlterStatement, error) {
-	stmt.Name = p.parseIdentAsString()
+	// The table may be schema-qualified (ALTER TABLE s.t ...)
+	if p.isIdentifier() || p.isNonReservedKeyword() {
+		name, err := p.parseQualifiedName()
+		if err != nil {
+			return nil, err
+		}
+		stmt.Name = name
+	} else {
+		stmt.Name = p.parseIdentAsString()
+	}
 	op := &ast.AlterTableOperation{}
 
 	switch {
